@@ -328,6 +328,24 @@ func genSession(g *vh.Gen, idx int, big bool) (string, string, string) {
 		}
 	}
 	external(0.1)
+	// reconnect: a second session on the same server sees what the first one committed
+	for g.Chance(0.25) {
+		e.add("n")
+		for g.Chance(0.15) {
+			e.client(g, genAuthJunk(g, user)+eolCmd(g))
+		}
+		if g.Chance(0.85) {
+			e.client(g, "APOP "+user+" x"+eolCmd(g))
+			k := g.Intn(6)
+			for i := 0; i < k; i++ {
+				external(0.08)
+				e.client(g, genTransLine(g, n)+eolCmd(g))
+			}
+		}
+		if g.Chance(0.4) {
+			e.client(g, "QUIT\r\n")
+		}
+	}
 	evs := "-"
 	if len(e.evs) > 0 {
 		evs = strings.Join(e.evs, ",")
